@@ -78,8 +78,21 @@ Definition dominates (s0 s1 : bsnap) : Prop :=
   bs_state s0 <= bs_state s1 /\
   forall c r0, alookup c (bs_storage s0) = Some r0 -> exists r1, alookup c (bs_storage s1) = Some r1 /\ r0 <= r1.
 
+(** no buffered entry holds the object [p] (a handle's newState before its first PutState) *)
+Definition ptr_unused (d : sdb) (p : nat) : Prop :=
+  forall e, In e (entries (d_buf d)) -> a_ptr (snd e) <> p.
+
+Lemma poke_bal_unused p bal (b : sbuf aval) :
+  (forall e, In e (entries b) -> a_ptr (snd e) <> p) -> poke_bal p bal b = b.
+Proof.
+  intros H. destruct b as [ents idx n]. unfold poke_bal. cbn in *. f_equal.
+  rewrite <- (map_id ents) at 2. apply map_ext_in. intros e Hin.
+  destruct (Nat.eqb_spec (a_ptr (snd e)) p); auto. exfalso. eapply H; eauto.
+Qed.
+
 Definition ok_op (d0 : sdb) (s0 : bsnap) (d : sdb) (o : op) : Prop :=
   match o with
+  | OAAdd h _ | OASub h _ => forall ah, nth_error (d_ah d) h = Some ah -> ptr_unused d (ah_ptr ah)
   | OStage h => forall c ob, live_obj d h = Ok (c, ob) -> forall o0, alookup c (d_cache d0) = Some o0 -> ob = o0
   | OCRollback j =>
       forall h rev c ob, nth_error (d_csnaps d) j = Some (h, rev) -> live_obj d h = Ok (c, ob) ->
@@ -513,6 +526,50 @@ Proof.
     apply firstn_app_prefix. lia.
   - (* OClear *)
     inversion H; subst. eapply ext_fields; [apply (ext_clear d0 d HE)|..]; reflexivity.
+  - (* OAGet *)
+    apply bind_ok in H. destruct H as (cur & _ & H). inversion H; subst.
+    eapply ext_fields; [exact HE|..]; reflexivity.
+  - (* OAAdd: the handle has not been put, no buffered entry is touched *)
+    apply bind_ok in H. destruct H as (ah & Ha & H). apply of_opt_ok in Ha. inversion H; subst.
+    eapply ext_fields; [exact HE|..]; try reflexivity. cbn. apply poke_bal_unused. now apply Hok.
+  - (* OASub *)
+    apply bind_ok in H. destruct H as (ah & Ha & H). apply of_opt_ok in Ha. inversion H; subst.
+    eapply ext_fields; [exact HE|..]; try reflexivity. cbn. apply poke_bal_unused. now apply Hok.
+  - (* OAPut *)
+    apply bind_ok in H. destruct H as (ah & Ha & H). inversion H; subst. now apply ext_put.
+  - (* OAReset *)
+    apply bind_ok in H. destruct H as (ah & Ha & H). inversion H; subst.
+    eapply ext_fields; [exact HE|..]; reflexivity.
+Qed.
+
+(** handle_mutation_invisible: Add/SubBalance through an AccountState handle whose newState
+    has not been stored by PutState changes no buffer, cache, storage, trie or store — hence no
+    read, no export and no root *)
+Theorem handle_mutation_invisible d h ah o d' :
+  (exists v, o = OAAdd h v \/ o = OASub h v) ->
+  nth_error (d_ah d) h = Some ah -> ptr_unused d (ah_ptr ah) -> step d o = Ok d' ->
+  d_buf d' = d_buf d /\ d_cache d' = d_cache d /\ d_heap d' = d_heap d /\ d_handles d' = d_handles d /\
+  d_trie d' = d_trie d /\ d_store_a d' = d_store_a d /\ d_store_v d' = d_store_v d /\
+  (forall a, get_state d' a = get_state d a).
+Proof.
+  intros (v & Ho) Ha Hu H.
+  assert (Hb : d_buf d' = d_buf d /\ d_cache d' = d_cache d /\ d_heap d' = d_heap d /\ d_handles d' = d_handles d /\
+               d_trie d' = d_trie d /\ d_store_a d' = d_store_a d /\ d_store_v d' = d_store_v d).
+  { destruct Ho as [-> | ->]; cbn [step] in H; rewrite Ha in H; cbn in H; inversion H; subst; cbn;
+      rewrite (poke_bal_unused _ _ _ Hu); repeat split. }
+  destruct Hb as (B1 & B2 & B3 & B4 & B5 & B6 & B7). repeat split; auto.
+  intros a. unfold get_state, get_state_ptr, trie_state. now rewrite B1, B5, B6.
+Qed.
+
+(** the newState of a fresh handle is a Clone: its pointer is new, so the handle can be
+    mutated freely until PutState *)
+Theorem fresh_handle_unused d a d' :
+  (forall e, In e (entries (d_buf d)) -> a_ptr (snd e) < d_nptr d) -> step d (OAGet a) = Ok d' ->
+  exists ah, nth_error (d_ah d') (length (d_ah d)) = Some ah /\ ptr_unused d' (ah_ptr ah) /\ d_buf d' = d_buf d.
+Proof.
+  intros Hb H. cbn [step] in H. apply bind_ok in H. destruct H as (cur & _ & H). inversion H; subst. cbn.
+  rewrite nth_error_app2, Nat.sub_diag by auto. cbn. eexists. split; [reflexivity|]. split; [|reflexivity].
+  intros e Hin. apply Hb in Hin. destruct cur as [[op [bal rt]]|]; cbn; lia.
 Qed.
 
 (** any disciplined sequence of operations after a block snapshot, with any nesting of block
